@@ -23,6 +23,23 @@ Theorem round_trips_do_not_cross_a_json_connection :
 Proof. exact round_trip_does_not_cross_the_wire. Qed.
 Print Assumptions round_trips_do_not_cross_a_json_connection.
 
+(* Over the in-process transport, where envelopes are handed over as objects, an authentication with any number
+   of round trips completes: the server's Authenticate asks r times (data d 0 .. d (r-1)), the client's
+   authenticator answers each time ([answer i]: the first answer is to the offered schemes, the later ones to the
+   round-trip data), the (r+1)-th answer is accepted - both ends establish the same session. *)
+Theorem round_trips_complete_over_the_in_process_transport :
+  forall snode comp encs sch0 schs k t sid o csel esel auth id d r n,
+  let sc := mk_sconf comp encs (sch0 :: schs) k t sid in
+  let cc := mk_cconf csel esel auth id k t in
+  (forall i, i <= r -> mem (fst (answer sch0 schs auth d i)) (sch0 :: schs) = true) ->
+  (forall i, i < r -> o_auth o id (fst (answer sch0 schs auth d i)) (Some (snd (answer sch0 schs auth d i))) i = ARound (d i)) ->
+  o_auth o id (fst (answer sch0 schs auth d r)) (Some (snd (answer sch0 schs auth d r))) r = ARole ->
+  o_reg o id = RNode n ->
+  needs_negotiation s_repaired sc (chan0 sc) (neg_comp_of comp k) (neg_enc_of encs k) = false ->
+  exists cins, consistent false snode sc o cc cins /\ agree snode (ends_of false snode sc o cc cins) n (initial_enc k).
+Proof. exact round_trips_complete_in_process. Qed.
+Print Assumptions round_trips_complete_over_the_in_process_transport.
+
 (* the same pair over the in-process transport, where envelopes are handed over as objects: one round trip, then
    established at both ends (computed) *)
 Example round_trip_in_process :
